@@ -763,13 +763,44 @@ func c19VariantName(v []c19BoolOpDef) string {
 	return strings.Join(p, " ")
 }
 
-func c19FreshBool(v []c19BoolOpDef, opt bool) *funcGen.FunctionGenerator[bool] {
+// c19FreshBool registers the operators of v so that the final priority order is the order of v. route selects
+// the registration sequence: 0 = in order (AddSimpleOp appends), 1 = the first one, then the others from last to
+// second, each inserted behind the first (AddOpBehind with 1..k-1 operators registered), 2 = even positions in
+// order, then each odd one behind its predecessor, 3 = all but the second, which is inserted last.
+func c19FreshBool(v []c19BoolOpDef, opt bool, route int) *funcGen.FunctionGenerator[bool] {
 	g := funcGen.New[bool]().
 		AddConstant("false", false).
 		AddConstant("true", true)
-	for _, o := range v {
+	impl := func(o c19BoolOpDef) funcGen.OperatorImpl[bool] {
 		f := c19BoolFn(o.Fn)
-		g.AddSimpleOp(o.Sym, o.Comm, func(a, b bool) (bool, error) { return f(a, b), nil })
+		return funcGen.OperatorFunc[bool](func(st funcGen.Stack[bool], a, b bool) (bool, error) { return f(a, b), nil })
+	}
+	behind := func(b string, o c19BoolOpDef) { g.AddOpBehind(b, o.Sym, o.Comm, impl(o), true) }
+	switch {
+	case route == 1 && len(v) > 1:
+		behind("", v[0])
+		for i := len(v) - 1; i >= 1; i-- {
+			behind(v[0].Sym, v[i])
+		}
+	case route == 2 && len(v) > 1:
+		for i := 0; i < len(v); i += 2 {
+			behind("", v[i])
+		}
+		for i := 1; i < len(v); i += 2 {
+			behind(v[i-1].Sym, v[i])
+		}
+	case route == 3 && len(v) > 1:
+		for i := range v {
+			if i != 1 {
+				behind("", v[i])
+			}
+		}
+		behind(v[0].Sym, v[1])
+	default:
+		for _, o := range v {
+			f := c19BoolFn(o.Fn)
+			g.AddSimpleOp(o.Sym, o.Comm, func(a, b bool) (bool, error) { return f(a, b), nil })
+		}
 	}
 	g.AddUnaryFunc("!", func(a bool) (bool, error) { return !a, nil }).
 		SetToBool(func(c bool) (bool, bool) { return c, true }).
@@ -780,8 +811,22 @@ func c19FreshBool(v []c19BoolOpDef, opt bool) *funcGen.FunctionGenerator[bool] {
 	return g
 }
 
+// c19RegisteredAs reports whether the generator's operator table is the variant (symbols and flags in order).
+func c19RegisteredAs(g *funcGen.FunctionGenerator[bool], v []c19BoolOpDef) bool {
+	ops := g.VerifOperators()
+	if len(ops) != len(v) {
+		return false
+	}
+	for i, o := range ops {
+		if o.Operator != v[i].Sym || o.IsCommutative != v[i].Comm {
+			return false
+		}
+	}
+	return true
+}
+
 func c19RunPerm(job *c19Job, res *c19Result, deadline time.Time) {
-	for _, v := range job.Variants {
+	for vi, v := range job.Variants {
 		name := c19VariantName(v)
 		bs := &gboolSem{bin: map[string]func(a, b bool) bool{}}
 		var syms []string
@@ -790,7 +835,12 @@ func c19RunPerm(job *c19Job, res *c19Result, deadline time.Time) {
 			syms = append(syms, o.Sym)
 		}
 		t := newGTable(syms, []string{"!"})
-		gOn, gOff := c19FreshBool(v, true), c19FreshBool(v, false)
+		gOn, gOff := c19FreshBool(v, true, vi%4), c19FreshBool(v, false, (vi+1)%4)
+		for route := 0; route < 4; route++ {
+			if g := c19FreshBool(v, true, route); !c19RegisteredAs(g, v) {
+				res.fail(c19Fail{Family: "perm", Mode: "both", What: "registration-order", Variant: name, Got: fmt.Sprint(g.VerifOperators()), Text: fmt.Sprintf("registration route %d", route)})
+			}
+		}
 		st := funcGen.NewEmptyStack[bool]()
 		vr := c19VariantResult{Variant: name}
 		al := galphabet{leaves: c19BoolLeaves(), unary: []string{"!"}, binary: syms, hook: bs.hook}
@@ -1040,7 +1090,7 @@ func c19RegroupOp(e *gnode, comm map[string]bool) string {
 }
 
 func runC19(c *Ctx) {
-	c.rule = "bounded-exhaustive on the implementation: every boolean expression with <= 3 (quick) / <= 4 (thorough) operator nodes (prefix !, binary ^ = | &) over {a,b,c,true,false}, minimal-parenthesis and fully parenthesised renderings, plus every let/if form with <= 2 / <= 3 nodes (let names fresh, by nesting depth; the 3-node forms with minimal parentheses only), x all 8 assignments x optimizer on/off (separate child processes), against direct evaluation of the tree; float expressions: every tree with <= 2 (quick) / <= 3 (thorough) nodes over {a,b,2,0.5} with all 8 binary operators, unary minus, sqr, sqrt (three renderings incl. implicit multiplication) on a 6x6 grid; every tree with <= 4 nodes over {a,2} with all 8 binary operators and unary minus on a 9-point grid (both tiers); thorough: every tree with exactly 5 nodes over {a,2} with = < + - * / and unary minus (the galphabet is reduced at 5 nodes to stay inside the time budget: > mirrors <, ^ leaves the exact domain); plus regrouping chains (c1 op x) op c2 / (x op c1) op c2 for every operator and 5 constants, let/if forms and sampled larger trees; exact domain = every node satisfies log2(bound)+fractional bits <= 50 (then all float64 operations and all regroupings are exact; re-checked with math/big), outside it optimizer-off must still be bit-identical to direct evaluation and optimizer-on differences are counted as rounding; permuted IsCommutative flags on fresh funcGen.New[bool]() generators; non-trivial = >= 2 operator nodes and at least one variable (floats: and at least one in-domain assignment); enumerated trees are distinct by construction"
+	c.rule = "bounded-exhaustive on the implementation: every boolean expression with <= 3 (quick) / <= 4 (thorough) operator nodes (prefix !, binary ^ = | &) over {a,b,c,true,false}, minimal-parenthesis and fully parenthesised renderings, plus every let/if form with <= 2 / <= 3 nodes (let names fresh, by nesting depth; the 3-node forms with minimal parentheses only), x all 8 assignments x optimizer on/off (separate child processes), against direct evaluation of the tree; float expressions: every tree with <= 2 (quick) / <= 3 (thorough) nodes over {a,b,2,0.5} with all 8 binary operators, unary minus, sqr, sqrt (three renderings incl. implicit multiplication) on a 6x6 grid; every tree with <= 4 nodes over {a,2} with all 8 binary operators and unary minus on a 9-point grid (both tiers); thorough: every tree with exactly 5 nodes over {a,2} with = < + - * / and unary minus (the galphabet is reduced at 5 nodes to stay inside the time budget: > mirrors <, ^ leaves the exact domain); plus regrouping chains (c1 op x) op c2 / (x op c1) op c2 for every operator and 5 constants, let/if forms and sampled larger trees; exact domain = every node satisfies log2(bound)+fractional bits <= 50 (then all float64 operations and all regroupings are exact; re-checked with math/big), outside it optimizer-off must still be bit-identical to direct evaluation and optimizer-on differences are counted as rounding; permuted IsCommutative flags on fresh funcGen.New[bool]() generators, each table registered along four routes (appending, and three insertion orders through AddOpBehind) that must yield the same priority list; non-trivial = >= 2 operator nodes and at least one variable (floats: and at least one in-domain assignment); enumerated trees are distinct by construction"
 	c.assume = append(c.assume,
 		"float theorems are about exact arithmetic (Rat); float64 coincides with it on the exact domain defined in the rule (checked with math/big on every explicit case and on every n-th enumerated case)",
 		"the parser stage (text -> AST) is C03's theorem; here it is exercised exhaustively up to the node bound, not composed in Lean",
